@@ -8,7 +8,7 @@ invoked exactly once — with the first acceptable reply, an error status, or a 
 the lookup was cancelled, in which case it is never invoked; datagrams that match no
 outstanding lookup are ignored."
 
-`Model.lean` follows the tree with patches/C15-01 and C15-02 applied; the statements about the
+`Model.lean` follows the tree with patches/C15-01, C15-02 and C15-03 applied; the statements about the
 unpatched parser (`Orig.lean`) are the `…_orig_…counterexample` theorems at the end.
 -/
 import TboxModel.C15.Proofs
@@ -254,6 +254,35 @@ theorem C15_callback_once_counterexample :
   refine ⟨{ alloc := 0, reqs := [(1, { serial := 0 })], r0 := [1], valueNumber := 1, nextSerial := 1 }, ?_⟩
   decide
 
+/-! ### the callback runs after its lookup was erased (patches/C15-03) -/
+
+/-- **C15_callback_after_erase.** When a callback runs, its own id is no longer outstanding: the
+state its script starts from has no entry of that id, so `isRunning(own id)` is false there and a
+`cancel` of the own id as the script's first call returns "not found" and changes nothing. -/
+theorem C15_callback_after_erase (st : St) (id : Nat) :
+    find (erase st.reqs id) id = none ∧
+    ∀ st0 : St, st0.reqs = erase st.reqs id → cancel st0 id = (st0, false) := by
+  have h : find (erase st.reqs id) id = none := by
+    unfold find erase
+    simp only [Option.map_eq_none_iff, List.find?_eq_none, List.mem_filter]
+    intro e he
+    simpa using he.2
+  refine ⟨h, ?_⟩
+  intro st0 h0
+  unfold cancel
+  rw [h0, h]
+
+/-- **C15_orig_selfcancel_counterexample.** As found (callback first, `deleteRequest`
+afterwards; `Orig.finishOld`): a callback whose script cancels its own lookup erases the map node
+holding the `std::function` that is executing — outcome `none` (replayed on the unpatched tree:
+`CRASH asan:heap-use-after-free`).  The repaired `finish` completes, the cancel returning 0. -/
+theorem C15_orig_selfcancel_counterexample :
+    let st : St := (step (step init (.defScript [.cancelSelf, .lookup 1])).1 (.lookup 0)).1
+    (find st.reqs 1).map (·.script) = some [.cancelSelf, .lookup 1] ∧
+    Orig.finishOld st 1 ((find st.reqs 1).getD { serial := 0 }) { status := .domainError } = none ∧
+    (finish st 1 ((find st.reqs 1).getD { serial := 0 }) { status := .domainError }).2.map (·.acts) =
+      [[(Act.cancelSelf, 0), (Act.lookup 1, 2)]] := by decide +kernel
+
 /-! ### the unpatched parser violates the first three statements -/
 
 def selfPointer : List Byte := [0xC0, 0x00]
@@ -326,13 +355,13 @@ example : (parseReply sample (fun _ => true)).val? =
 /-- a run with a duplicate reply, a cancel, a retry issued from inside a timeout callback and a
 cancel issued from inside a reply callback: callbacks 0 (success; its script cancels lookup 3),
 2 (timeout; its script issues lookup 4) and 4 (timeout, five ticks later) run once each, the
-cancelled lookups 1 and 3 never; nothing is outstanding at the end; no id was reused -/
+cancelled lookups 1 and 3 never (the self-cancel inside callback 2 finds nothing); nothing is outstanding at the end; no id was reused -/
 example :
-    let ops := [Op.defScript [.cancel 4], .defScript [.lookup 2], .defScript [],
+    let ops := [Op.defScript [.cancel 4], .defScript [.cancelSelf, .lookup 2], .defScript [],
                 .lookup 0, .lookup 2, .lookup 1, .lookup 2, .recv sample, .recv sample, .cancel 2,
                 .tick, .tick, .tick, .tick, .tick, .tick, .tick, .tick, .tick, .tick]
     (allEvents (run init ops).2).map (fun e => (e.serial, e.result.status, e.age, e.acts)) =
-      [(0, Status.success, 0, [(Act.cancel 4, 1)]), (2, Status.timeout, 5, [(Act.lookup 2, 5)]),
+      [(0, Status.success, 0, [(Act.cancel 4, 1)]), (2, Status.timeout, 5, [(Act.cancelSelf, 0), (Act.lookup 2, 5)]),
        (4, Status.timeout, 5, [])] ∧
     (run init ops).1.cancelled = [3, 1] ∧ (run init ops).1.reqs = [] ∧
     (run init ops).1.idReuse = false := by decide +kernel
